@@ -422,3 +422,16 @@ impl TransformerContext {
         }
     }
 }
+
+#[cfg(feature = "verif-hooks")]
+impl TransformerContext {
+    /// (depth counter, scope-stack height, element-stack height, in-specs flag)
+    pub fn verif_probe(&self) -> (u32, usize, usize, bool) {
+        (
+            self.current_depth,
+            self.scope_stack.len(),
+            self.element_stack.len(),
+            self.in_specs,
+        )
+    }
+}
